@@ -110,6 +110,16 @@ def run(tier, seed, replay):
             sp["what"] = ["aliases:" + ",".join(sorted(t))]
             specs.append(sp)
             plan.append((t, expect))
+    # packages that are named only by the type of getter-less services: the import block lists none of them (adjacent, first, last)
+    pk = ["gv.test/fix/alpha", "gv.test/fix/beta-pkg", "gv.test/fix/x.y", "example.com/lib", "example.com/other", "gv.test/fix/alpha/sub"]
+    for sel in ([0, 1], [0, 1, 2, 3, 4, 5], [3, 4], [5, 0], [2]):
+        for stub in (False, True):
+            cfg = {"services": {"s%d" % i: {"constructor": "NewA", "type": "*\"%s\".T" % pk[i]} for i in sel}}
+            cfg["services"]["used"] = {"value": "\"%s\".Value" % pk[(sel[0] + 1) % len(pk)]}
+            sp = common.mk_spec(len(specs), [cfg], keep_out=True, flags={"stub": stub})
+            sp["what"] = ["unused-type-imports" + ("/stub" if stub else "")]
+            specs.append(sp)
+            plan.append(({}, [("value", "\"%s\"" % pk[(sel[0] + 1) % len(pk)], "Value")] if not stub else []))
     if replay:
         rp = json.load(open(replay))["replay"]
         specs = [dict(rp, id="0", dump=True, build_info="bi", keep_out=True)]
